@@ -362,14 +362,34 @@ def sqlite_minmax(f):
     return g
 
 
+def mysql_substr_intent(s, pos, n=None, _two=False):
+    """Variant 'substr_negpos_intent': what pony's generic STRING_SLICE formula MEANS when it hands a negative start to
+    substr(): s[start:] for two arguments; with a length n = stop + 1 - start (stop >= 0, so n > -start) or
+    n = stop - start (stop < 0, so n < -start) the python slice s[start:stop].  Non-negative positions: MySQL model."""
+    from checks import C25
+    if s is None or pos is None or (n is None and not _two): return None
+    pos = int(pos)
+    if pos >= 0: return C25.mysql_substr(s, pos, n, _two)
+    s = str(s)
+    if _two: return s[pos:]
+    n = int(n)
+    if n > -pos: return s[pos:n + pos - 1]
+    if n < -pos: return s[pos:n + pos]
+    return C25.mysql_substr(s, pos, n)
+
+
 def register_udfs(con, dialect, variant=None):
     """Dialect function semantics on one sqlite3 connection.  `variant` switches ONE model back to the SQLite /
     Python reading (used by the deviation-rule pass to name the mechanism of a disagreement):
        'trim_charset'  mysql_trim removes a character set;  'extremes_null'  greatest/least are NULL if any NULL;
-       'length_chars'  MySQL length counts characters."""
+       'length_chars'  MySQL length counts characters;  'substr_negpos_intent'  MySQL substr with a negative position
+       computes the python slice the generic STRING_SLICE formula was written for."""
     from checks import C25
     model = {'postgres': 'postgres', 'cockroach': 'postgres', 'mysql': 'mysql'}[dialect]
     C25.register_model(con, model, C25._length_chars if variant == 'length_chars' else None)
+    if variant == 'substr_negpos_intent' and model == 'mysql':
+        con.create_function('substr', 2, lambda s, p: mysql_substr_intent(s, p, None, True))
+        con.create_function('substr', 3, lambda s, p, n: mysql_substr_intent(s, p, n))
     if variant == 'extremes_null':
         con.create_function('greatest', -1, sqlite_minmax(max))
         con.create_function('least', -1, sqlite_minmax(min))
@@ -466,14 +486,20 @@ def _register_converters():
     _CONVERTERS_DONE.append(1)
 
 
+ROUTES = {}      # connection-target prefix -> callable(log, dialect, rest, *args, **kwargs); 'exec' is ExecConnection
+
+
 def _factory_for(flavor_default):
     def factory(log, *args, **kwargs):
         target = kwargs.get('database') or kwargs.get('db') or ''
-        if isinstance(target, str) and target.startswith('exec:'):
-            _, dialect, path = target.split(':', 2)
-            return ExecConnection(log, dialect, path, *args, **kwargs)
+        if isinstance(target, str) and target.count(':') >= 2 and target.split(':', 1)[0] in ROUTES:
+            prefix, dialect, rest = target.split(':', 2)
+            return ROUTES[prefix](log, dialect, rest, *args, **kwargs)
         return shimlib.RecordConnection(log, *args, **kwargs)
     return factory
+
+
+ROUTES['exec'] = ExecConnection
 
 
 def install_factories():
